@@ -21,6 +21,7 @@ use anthem::{
         outline,
         problem as pb,
         simplifying_fol::sigma_0::{classic::CLASSIC, ht::HT, intuitionistic::INTUITIONISTIC},
+        task::external_equivalence::{ExternalEquivalenceTaskError, ExternalEquivalenceTaskWarning},
     },
 };
 use indexmap::{IndexMap, IndexSet};
@@ -77,23 +78,87 @@ pub fn proof_outline(o: &outline::ProofOutline) -> Sexp {
         ],
     )
 }
-pub fn po_error(e: &outline::ProofOutlineError) -> &'static str {
+// ------------------------------------------------------------------ errors and warnings WITH the
+// values they carry (audit B16): variant name, then the payload in the order of the variant's
+// fields; the model prints the same (ocaml/driver/ops_tasks.ml).  Every printer first runs the
+// real Display impl of the value (a panic inside Display - there is an `unreachable!()` in the one
+// of ExternalEquivalenceTaskWarning - surfaces as `(panic)`); the text is not put on the wire.
+
+/// the items of a ProofOutlineError: "Variant" payload..
+pub fn po_error_items(e: &outline::ProofOutlineError) -> Vec<Sexp> {
     use outline::ProofOutlineError as E;
+    let _ = format!("{e}");
     match e {
-        E::AnnotatedFormulaWithInvalidRole(_) => "AnnotatedFormulaWithInvalidRole",
-        E::DuplicatedVariables(_) => "DuplicatedVariables",
-        E::TakenPredicate(_) => "TakenPredicate",
-        E::FreeRhsVariables(_) => "FreeRhsVariables",
-        E::UndefinedRhsPredicate { .. } => "UndefinedRhsPredicate",
-        E::DefinedPredicateVariableListMismatch(_) => "DefinedPredicateVariableListMismatch",
-        E::TermsInDefinition { .. } => "TermsInDefinition",
-        E::MalformedInductiveLemma(_) => "MalformedInductiveLemma",
-        E::MalformedInductiveAntecedent(_) => "MalformedInductiveAntecedent",
-        E::MalformedInductiveVariables(_) => "MalformedInductiveVariables",
-        E::MalformedInductiveTerm(_) => "MalformedInductiveTerm",
-        E::MalformedDefinition(_) => "MalformedDefinition",
-        E::InvalidRoleForGeneralLemma(_) => "InvalidRoleForGeneralLemma",
+        E::AnnotatedFormulaWithInvalidRole(x) => vec![s("AnnotatedFormulaWithInvalidRole"), conv::annot(x)],
+        E::DuplicatedVariables(f) => vec![s("DuplicatedVariables"), conv::formula(f)],
+        E::TakenPredicate(p) => vec![s("TakenPredicate"), conv::pred(p)],
+        E::FreeRhsVariables(f) => vec![s("FreeRhsVariables"), conv::formula(f)],
+        E::UndefinedRhsPredicate { definition, predicate } => {
+            vec![s("UndefinedRhsPredicate"), conv::formula(definition), conv::pred(predicate)]
+        }
+        E::DefinedPredicateVariableListMismatch(f) => vec![s("DefinedPredicateVariableListMismatch"), conv::formula(f)],
+        E::TermsInDefinition { term, formula } => vec![s("TermsInDefinition"), conv::gterm(term), conv::formula(formula)],
+        E::MalformedInductiveLemma(f) => vec![s("MalformedInductiveLemma"), conv::formula(f)],
+        E::MalformedInductiveAntecedent(f) => vec![s("MalformedInductiveAntecedent"), conv::formula(f)],
+        E::MalformedInductiveVariables(f) => vec![s("MalformedInductiveVariables"), conv::formula(f)],
+        E::MalformedInductiveTerm(f) => vec![s("MalformedInductiveTerm"), conv::formula(f)],
+        E::MalformedDefinition(f) => vec![s("MalformedDefinition"), conv::formula(f)],
+        E::InvalidRoleForGeneralLemma(x) => vec![s("InvalidRoleForGeneralLemma"), conv::annot(x)],
     }
+}
+/// the items of a ProofOutlineWarning
+pub fn po_warning_items(w: &outline::ProofOutlineWarning) -> Vec<Sexp> {
+    let _ = format!("{w}");
+    match w {
+        outline::ProofOutlineWarning::ExcessQuantifiedVariables(f) => vec![s("ExcessQuantifiedVariables"), conv::formula(f)],
+    }
+}
+/// `(err "Variant" payload..)` of the op proof_outline
+pub fn po_error(e: &outline::ProofOutlineError) -> Sexp {
+    tagged("err", po_error_items(e))
+}
+/// `(warnings ("ExcessQuantifiedVariables" formula)..)` of the op proof_outline
+pub fn po_warnings(ws: &[outline::ProofOutlineWarning]) -> Sexp {
+    tagged("warnings", ws.iter().map(|w| l(po_warning_items(w))).collect())
+}
+/// `(err "Variant" payload..)` of an external-equivalence task
+pub fn ext_error(e: &ExternalEquivalenceTaskError) -> Sexp {
+    use ExternalEquivalenceTaskError as E;
+    let _ = format!("{e}");
+    let preds = |ps: &Vec<fol::Predicate>| preds_sexp(ps.iter());
+    let items = match e {
+        E::UnsupportedFormulaRepresentation => vec![s("UnsupportedFormulaRepresentation")],
+        E::NonTightProgram(p) => vec![s("NonTightProgram"), conv::program(p)],
+        E::ProgramContainsPrivateRecursion(p) => vec![s("ProgramContainsPrivateRecursion"), conv::program(p)],
+        E::InputOutputPredicatesOverlap(ps) => vec![s("InputOutputPredicatesOverlap"), preds(ps)],
+        E::InputPredicateInRuleHead(ps) => vec![s("InputPredicateInRuleHead"), preds(ps)],
+        E::OutputPredicateInUserGuideAssumption(ps) => vec![s("OutputPredicateInUserGuideAssumption"), preds(ps)],
+        E::OutputPredicateInSpecificationAssumption(ps) => vec![s("OutputPredicateInSpecificationAssumption"), preds(ps)],
+        E::PlaceholdersWithIdenticalNamesDifferentSorts(n) => vec![s("PlaceholdersWithIdenticalNamesDifferentSorts"), s(n)],
+        E::AssumptionContainsNonInputSymbols(x) => vec![s("AssumptionContainsNonInputSymbols"), conv::annot(x)],
+        E::SpecificationContainsUnsupportedRoles(x) => vec![s("SpecificationContainsUnsupportedRoles"), conv::annot(x)],
+        E::ProofOutlineError(inner) => {
+            let mut v = vec![s("ProofOutlineError")];
+            v.extend(po_error_items(inner));
+            v
+        }
+    };
+    tagged("err", items)
+}
+/// one element of `(warnings ..)` of an external-equivalence task: `("Variant" payload..)`
+pub fn ext_warning(w: &ExternalEquivalenceTaskWarning) -> Sexp {
+    use ExternalEquivalenceTaskWarning as W;
+    let _ = format!("{w}");
+    l(match w {
+        W::NonTightProgram(p) => vec![s("NonTightProgram"), conv::program(p)],
+        W::InconsistentDirectionAnnotation(x) => vec![s("InconsistentDirectionAnnotation"), conv::annot(x)],
+        W::InvalidRoleWithinUserGuide(x) => vec![s("InvalidRoleWithinUserGuide"), conv::annot(x)],
+        W::DefinitionWithWarning(inner) => {
+            let mut v = vec![s("DefinitionWithWarning")];
+            v.extend(po_warning_items(inner));
+            v
+        }
+    })
 }
 pub fn placeholders_sexp(m: &[(String, fol::Sort)]) -> Sexp {
     l(m.iter().map(|(n, st)| l(vec![s(n), conv::sort(st)])).collect())
@@ -585,7 +650,16 @@ pub fn outline_entry(
             // definition  forall X.. (aux(X..) <-> F)
             let (p, n) = if rng.chance(fresh_pct) { *rng.pick(fresh) } else { *rng.pick(tempting) };
             let pool = ["X", "Y", "Z"];
-            let mut vs: Vec<fol::Variable> = (0..n).map(|i| fol::Variable { name: pool[i % 3].to_string(), sort: fol::Sort::General }).collect();
+            // 30 % of the definitions bind integer / symbol sorted variables (the head's arguments are then
+            // `X$i` / `X$s` terms: the TryFrom<GeneralTerm> arms for IntegerTerm::Variable and
+            // SymbolicTerm::Variable of outline/mod.rs on the ACCEPTING side; audit 2, B16)
+            let sorted = rng.chance(30);
+            let mut vs: Vec<fol::Variable> = (0..n)
+                .map(|i| fol::Variable {
+                    name: pool[i % 3].to_string(),
+                    sort: if sorted { *rng.pick(&[fol::Sort::Integer, fol::Sort::Symbol, fol::Sort::General, fol::Sort::Integer]) } else { fol::Sort::General },
+                })
+                .collect();
             let bvars: Vec<(&str, fol::Sort)> = vs.iter().map(|v| (pool[pool.iter().position(|x| *x == v.name).unwrap()], v.sort)).collect();
             let bvars2: Vec<(&str, fol::Sort)> = if bvars.is_empty() { vec![("X", fol::Sort::General)] } else { bvars };
             let rhs_preds: Vec<(&str, usize)> = if rng.chance(90) { preds.clone() } else { let mut q = preds.clone(); q.push((p, n)); q.extend(fresh.iter().cloned()); q };
@@ -675,7 +749,7 @@ pub fn outline(rng: &mut Rng, known: &[(&str, usize)], max: usize) -> fol::Speci
 pub fn outline_with(rng: &mut Rng, known: &[(&str, usize)], tempting: &[(&str, usize)], fresh_pct: usize, max: usize) -> fol::Specification {
     let fresh: &[(&str, usize)] = &[("aux", 1), ("aux2", 2), ("d", 0), ("aux", 2)];
     let mut defined = vec![];
-    let n = rng.below(max + 1);
+    let n = g::count(rng, max);
     let mut formulas = vec![];
     for _ in 0..n {
         let e = outline_entry(rng, known, tempting, fresh_pct, fresh, &mut defined);
